@@ -86,6 +86,32 @@ def r2(ctx):
     wnames = {f[-1] for f in writes}
     recurses = {render(c["args"][0]) for c in calls_to(hir, NEG_EXPR)}
     descends_both = any("left" in r for r in recurses) and any("right" in r for r in recurses)
+    # the descent must reach every operand that is present: a recursive call guarded by anything but the presence
+    # of the operand leaves a nested AND/OR or comparison un-negated while the connective above it is dualised
+    for side in ("left", "right"):
+        cs = [c for c in calls_to(hir, NEG_EXPR) if side in render(c["args"][0])]
+        good = False
+        extra = []
+        for c in cs:
+            gs = guards_of(hir, c) or []
+            rest = [g for g in gs if presence_guard(g) != "expr." + side and g[0] != "closure"]
+            clos = [g for g in gs if g[0] == "closure"]
+            if clos:
+                # `expr.left.as_ref().map(|l| ..)`: the closure must be applied by map/and_then on the operand itself
+                par = [m for m in walk_exprs(hir) if m["k"] == "MCall" and any(a is clos[0][1] for a in m["args"])]
+                if not (par and par[0]["m"] in ("map", "and_then") and render(peel(par[0]["recv"])) == "expr." + side):
+                    rest.append(clos[0])
+            if not rest:
+                good = True
+            else:
+                extra += [guard_text(g) for g in rest]
+        if cs:
+            ctx.obligation(good)
+            if not good:
+                ctx.violation("negate_expr_op/descend-%s" % side, ctx.where(NEG_EXPR, cs[0]),
+                              "prefix NOT descends into the %s operand only under an extra condition (%s): an operand that "
+                              "fails it keeps its meaning while the connective above it is dualised, so `not (A or (B and C))` "
+                              "is not the complement" % (side, "; ".join(extra)))
     ctx.covered("field writes of negate_expr_op (MIR) and its recursive calls", 1 + len(recurses),
                 distinct_keys=sorted(wnames), sample={"writes": sorted(wnames), "recurses_into": sorted(recurses)})
     if ".op" not in wnames:
@@ -425,7 +451,8 @@ EXPLANATION = (
     "complement of the BETWEEN desugaring on all 13 weak orderings of (x, a, b); (R4) the parser's precedence "
     "layering and bracket pairing; (R5) the And/Or arms of the evaluator on all four truth assignments; (R6, R7) "
     "NOT parity folding and infix NOT. Not a proof of the behavioural statement: entries, attribute presence and "
-    "the lexer's keyword context are not modelled.")
+    "the lexer's keyword context are not modelled."
+    ' The NOT descent reaches every present operand (presence-only guards on the recursive calls).')
 ASSUMPTIONS = [
     "rustc's HIR/MIR faithfully represent the source; the exporter and rule scripts are correct",
     "comparison arms are pure functions of the operand order type (checked: an arm containing anything but "
